@@ -24,6 +24,10 @@ import time
 
 ROOT = os.path.dirname(os.path.dirname(os.path.abspath(__file__)))
 WORK = os.path.join(ROOT, ".work")
+# mutation self-tests redirect the outputs so that the committed evidence is never overwritten by a run on a scratch tree
+OUT = os.environ.get("VERIF_OUT_DIR", ROOT)
+if OUT != ROOT:
+    WORK = os.path.join(OUT, ".work")
 VENV_PY = "/venv/bin/python"
 REPO = os.environ.get("VERIF_REPO", "/repo")
 
@@ -128,7 +132,7 @@ def run_bounded(prop, tier, seed):
 
 
 def write_replay(prop, name, payload, script=None):
-    d = os.path.join(ROOT, "replays")
+    d = os.path.join(OUT, "replays")
     os.makedirs(d, exist_ok=True)
     safe = "".join(c if c.isalnum() or c in "._-" else "_" for c in name)[:120]
     path = os.path.join(d, f"{prop}-{safe}.json")
@@ -136,10 +140,10 @@ def write_replay(prop, name, payload, script=None):
         spath = path[:-5] + ".py"
         with open(spath, "w") as f:
             f.write(script)
-        payload["replay_script"] = os.path.relpath(spath, ROOT)
+        payload["replay_script"] = os.path.relpath(spath, OUT)
     with open(path, "w") as f:
         json.dump(payload, f, indent=1, default=str)
-    return os.path.relpath(path, ROOT)
+    return os.path.relpath(path, OUT)
 
 
 def run_script(script_path):
@@ -234,9 +238,9 @@ def check(prop, tier, seed, jobs):
                 if script is None:
                     suffix = " no-failing-input-found"
                 else:
-                    rc, out = run_script(os.path.join(ROOT, rp[:-5] + ".py"))
+                    rc, out = run_script(os.path.join(OUT, rp[:-5] + ".py"))
                     payload["native_replay"] = {"returncode": rc, "output": out}
-                    with open(os.path.join(ROOT, rp), "w") as f:
+                    with open(os.path.join(OUT, rp), "w") as f:
                         json.dump(payload, f, indent=1, default=str)
                     if rc != 1:
                         suffix = " no-failing-input-found"
@@ -321,7 +325,8 @@ def check(prop, tier, seed, jobs):
           "coverage": coverage,
           "assumptions": TRUSTED_BASE + notes + ["repo tree: " + REPO],
           "wall_s": round(time.time() - t0, 2), "violations": len(violations)}
-    with open(os.path.join(ROOT, "evidence", f"{prop}.json"), "w") as f:
+    os.makedirs(os.path.join(OUT, "evidence"), exist_ok=True)
+    with open(os.path.join(OUT, "evidence", f"{prop}.json"), "w") as f:
         json.dump(ev, f, indent=1, default=str)
     for ln in known_lines:
         print(ln)
@@ -386,7 +391,7 @@ def main():
         if not sp:
             print("no native replay script recorded; obligation:", payload.get("obligation"), payload.get("counter_model"))
             sys.exit(2)
-        rc, out = run_script(os.path.join(ROOT, sp))
+        rc, out = run_script(os.path.join(OUT, sp))
         print(out)
         sys.exit(rc)
 
